@@ -52,10 +52,10 @@ fn one_run(s: &Searcher, cl: usize, hay: &[u8], sp: (usize, usize), an: bool, ea
 
 /// a whole stepwise overlapping search (until it reports nothing, plus two more calls) recorded as
 /// ONE run: the transition offsets must increase over the whole history of the OverlappingState
-fn overlap_run(s: &Searcher, cl: usize, hay: &[u8], sp: (usize, usize)) -> Value {
+fn overlap_run(s: &Searcher, cl: usize, hay: &[u8], sp: (usize, usize), an: bool) -> Value {
     use aho_corasick::automaton::OverlappingState;
     let limit = 8 * hay.len() + 64;
-    let input = Input::new(hay).span(sp.0..sp.1);
+    let input = Input::new(hay).span(sp.0..sp.1).anchored(if an { Anchored::Yes } else { Anchored::No });
     let mut ops: Vec<Value> = vec![];
     let mut total = 0usize;
     let g = guarded(|| {
@@ -90,7 +90,7 @@ fn overlap_run(s: &Searcher, cl: usize, hay: &[u8], sp: (usize, usize)) -> Value
         Err(p) => ("panic".to_string(), json!(p)),
     };
     let steps = vec![0u8; total];
-    json!({"ev":"run","mode":"overlap","c":cl,"hay":hay,"s":sp.0,"e":sp.1,"an":false,"early":false,"ops":ops,
+    json!({"ev":"run","mode":"overlap","c":cl,"hay":hay,"s":sp.0,"e":sp.1,"an":an,"early":false,"ops":ops,
            "out":out,"res":res,"full":steps.len() >= limit})
 }
 
@@ -133,9 +133,13 @@ pub fn run(out_prefix: &str, shards: usize, seed: u64, scale: usize, mks: &[&'st
                             nev += 1;
                         }
                     }
-                    if mk == "std" && supported(&c, false) && sp.0 <= sp.1 {
-                        out.put(shard, &overlap_run(&s, cl, h, sp));
-                        nev += 1;
+                    if mk == "std" && sp.0 <= sp.1 {
+                        for an in [false, true] {
+                            if supported(&c, an) {
+                                out.put(shard, &overlap_run(&s, cl, h, sp, an));
+                                nev += 1;
+                            }
+                        }
                     }
                 }
             }
@@ -162,15 +166,19 @@ pub fn run(out_prefix: &str, shards: usize, seed: u64, scale: usize, mks: &[&'st
                 let early = rg.gen_range(0..3) == 0;
                 out.put(shard, &one_run(&s, cl, &h, sp, an, early));
                 nev += 1;
-                if mk == "std" && supported(&c, false) && sp.0 <= sp.1 {
-                    out.put(shard, &overlap_run(&s, cl, &h, sp));
-                    nev += 1;
+                if mk == "std" && sp.0 <= sp.1 {
+                    for an2 in [false, true] {
+                        if supported(&c, an2) {
+                            out.put(shard, &overlap_run(&s, cl, &h, sp, an2));
+                            nev += 1;
+                        }
+                    }
                 }
             }
             // what a stale resume state would continue: p, stray byte, rest of q
             if mk == "std" && supported(&c, false) {
                 for h in gen::stale_hays(&mut rg, &pats, 2) {
-                    out.put(shard, &overlap_run(&s, cl, &h, (0, h.len())));
+                    out.put(shard, &overlap_run(&s, cl, &h, (0, h.len()), false));
                     out.put(shard, &one_run(&s, cl, &h, (0, h.len()), false, false));
                     nev += 2;
                 }
